@@ -177,6 +177,105 @@ def C04_titan_bypasses_middleware():
     t, p, err = _drive(lambda r: GeminiResponse(20, "text/plain", "x"), [b"titan://h/f;size=3\r\nabc"], middleware=DenyAll(), upload=Up())
     return len(calls) > 0
 
+# ---------------------------------------------------------------- filesystem handlers
+def _tree():
+    d = tempfile.mkdtemp(dir="/var/tmp", prefix="nvw-")
+    root = os.path.join(d, "root"); os.makedirs(os.path.join(root, "sub")); os.makedirs(os.path.join(root, "admin"))
+    open(os.path.join(d, "outside.txt"), "w").write("OUTSIDE-SECRET")
+    open(os.path.join(root, "a b.gmi"), "w").write("SPACE-FILE")
+    open(os.path.join(root, "admin", "index.gmi"), "w").write("ADMIN-INDEX")
+    open(os.path.join(root, "admin", "secret.gmi"), "w").write("ADMIN-SECRET")
+    os.symlink(os.path.join(d, "outside.txt"), os.path.join(root, "sub", "index.gmi"))
+    return d, root
+
+def _static(root, line):
+    from nauyaca.server.handler import StaticFileHandler
+    from nauyaca.protocol.request import GeminiRequest
+    return StaticFileHandler(root).handle(GeminiRequest.from_line(line))
+
+@witness
+def C02_index_symlink_escapes():
+    d, root = _tree()
+    try:
+        r = _static(root, "gemini://h/sub/")
+        return r.status == 20 and "OUTSIDE-SECRET" in (r.body or "")
+    finally: shutil.rmtree(d)
+
+@witness
+def C02_percent_encoded_name_unreachable():
+    d, root = _tree()
+    try:
+        return _static(root, "gemini://h/a%20b.gmi").status != 20
+    finally: shutil.rmtree(d)
+
+def _cert_auth_decision(rules, url, fp=None):
+    from nauyaca.server.middleware import CertificateAuth, CertificateAuthConfig
+    ca = CertificateAuth(CertificateAuthConfig(path_rules=rules))
+    return asyncio.run(ca.process_request(url, "1.2.3.4", fp))
+
+@witness
+def C05_path_spelling_bypasses_rule():
+    from nauyaca.server.middleware import CertificateAuthPathRule
+    rules = [CertificateAuthPathRule(prefix="/admin/", require_cert=True)]
+    d, root = _tree()
+    try:
+        bad = []
+        for url in ["gemini://h//admin/secret.gmi", "gemini://h/admin", "gemini://h/sub/../admin/secret.gmi"]:
+            allowed, _ = _cert_auth_decision(rules, url)
+            served = _static(root, url)
+            if allowed and served.status == 20 and "ADMIN" in (served.body or ""):
+                bad.append(url)
+        return bool(bad)
+    finally: shutil.rmtree(d)
+
+@witness
+def C05_empty_allow_list_from_toml_admits_everyone():
+    from nauyaca.server.config import ServerConfig
+    d = tempfile.mkdtemp(dir="/var/tmp")
+    try:
+        sc = ServerConfig(document_root=d, certificate_auth_paths=[{"prefix": "/admin/", "allowed_fingerprints": []}])
+        rules = sc.get_certificate_auth_config().path_rules
+        allowed, _ = _cert_auth_decision(rules, "gemini://h/admin/x", "sha256:" + "0" * 64)
+        return allowed
+    finally: shutil.rmtree(d)
+
+@witness
+def C14_failed_write_truncates_existing_file():
+    from nauyaca.server.handler import FileUploadHandler
+    from nauyaca.protocol.request import TitanRequest
+    from pathlib import Path
+    d = tempfile.mkdtemp(dir="/var/tmp")
+    try:
+        up = os.path.join(d, "up"); os.makedirs(up)
+        target = os.path.join(up, "f.txt"); open(target, "w").write("ORIGINAL")
+        h = FileUploadHandler(up)
+        req = TitanRequest.from_line("titan://h/f.txt;size=6"); req.content = b"NEWNEW"
+        import builtins, io
+        real_open = builtins.open
+        class Failing(io.RawIOBase):
+            def __init__(self, f): self.f = f
+            def writable(self): return True
+            def write(self, b):
+                self.f.write(b[:2]); self.f.flush(); raise OSError(28, "No space left on device")
+            def close(self):
+                try: self.f.close()
+                finally: super().close()
+        def fake_open(file, mode="r", *a, **k):
+            f = real_open(file, mode, *a, **k)
+            if "w" in mode and "b" in mode and (str(file).startswith(up)): return Failing(f)
+            return f
+        builtins.open = fake_open
+        import pathlib, io as _io
+        real_io_open = _io.open
+        _io.open = fake_open
+        try:
+            r = asyncio.run(h.handle_upload(req))
+        finally:
+            builtins.open = real_open; _io.open = real_io_open
+        after = real_open(target).read() if os.path.exists(target) else None
+        return r.status != 20 and after != "ORIGINAL"
+    finally: shutil.rmtree(d)
+
 # MAIN
 if __name__ == "__main__":
     names = sys.argv[1:] or sorted(W)
